@@ -443,6 +443,7 @@ func streamMarshal(r *hx.Rng, cfs []*cfile, bs *builtSet) {
 		val  *dynamicpb.Message
 		wire []byte
 		text string
+		us   bool // decoded by the generated Unmarshal from a legal non-canonical encoding first (C04 only)
 	}
 	for _, bv := range bs.variants {
 		var reqs []string
@@ -456,7 +457,15 @@ func streamMarshal(r *hx.Rng, cfs []*cfile, bs *builtSet) {
 					wire, err := proto.MarshalOptions{Deterministic: true, AllowPartial: true}.Marshal(v)
 					hx.Must(err)
 					reqs = append(reqs, fmt.Sprintf("SM %s %s", md.FullName(), hx.B(wire)))
-					pend = append(pend, pending{c, md, v, wire, pbrender.Message(v)})
+					pend = append(pend, pending{c, md, v, wire, pbrender.Message(v), false})
+					if prop == "C04" && len(pend)%3 == 0 && proto.CheckInitialized(v) == nil {
+						// the same value after a trip through the generated Unmarshal, from an encoding no encoder emits (split and
+						// unpacked runs, superseded occurrences, explicit defaults in map entries, unknown fields)
+						g := &vgen{r: r, unknown: true, merge: len(pend)%2 == 0}
+						in := g.message(v)
+						reqs = append(reqs, fmt.Sprintf("US %s %s", md.FullName(), hx.B(in)))
+						pend = append(pend, pending{c, md, v, in, pbrender.Message(v), true})
+					}
 				}
 			}
 		}
@@ -474,6 +483,29 @@ func streamMarshal(r *hx.Rng, cfs []*cfile, bs *builtSet) {
 				continue
 			}
 			sz, m, mt, sz2 := f[0], f[1], f[2], f[3]
+			if p.us {
+				sink.Count("size-marshal-after-unmarshal")
+				m, mt = canonHex(p.md, m), canonHex(p.md, mt)
+				switch {
+				case sz == "uerr" || outside:
+					// (the decoder's verdict on the input is C06's business)
+				case sz == "panic" || m == "panic" || mt == "panic" || sz2 == "panic":
+					fail("generated Size/Marshal/MarshalTo panicked on a message produced by the generated Unmarshal", cs, "no panic", resps[i], "sm-panic")
+				case m == "err" || mt == "err":
+					fail("generated Marshal failed on a fully initialised message produced by the generated Unmarshal", cs, "bytes", resps[i], "sm-error")
+				default:
+					if n, _ := strconv.Atoi(sz); n != len(hx.UnB(m)) {
+						fail("Size() differs from len(Marshal()) on a message produced by the generated Unmarshal", cs, strconv.Itoa(len(hx.UnB(m))), sz, "sm-size")
+					}
+					if mt != m {
+						fail("MarshalTo into a buffer of Size() bytes did not write exactly the Marshal bytes (message produced by the generated Unmarshal)", cs, m, mt, "sm-marshalto")
+					}
+					if sz2 != sz {
+						fail("Size() changed after marshaling (message produced by the generated Unmarshal)", cs, sz, sz2, "sm-size2")
+					}
+				}
+				continue
+			}
 			missingReq := proto.CheckInitialized(p.val) != nil
 			m = canonHex(p.md, m)
 			mt = canonHex(p.md, mt)
